@@ -180,6 +180,11 @@ class SpecMixin:
             if nm == 'fp_same':
                 return a == b
             return {'fp_ge': z3.fpGEQ, 'fp_gt': z3.fpGT, 'fp_lt': z3.fpLT, 'fp_le': z3.fpLEQ, 'fp_eq': z3.fpEQ}[nm](a, b)
+        if nm == 'has_key':
+            m = self.ev(node.args[0], st, fr)
+            keys = [to_int(self.ev(a, st, fr)) for a in node.args[1:]]
+            dom = z3.Function('dom_map_%s' % '_'.join('Int' for _ in keys), Ref, *[z3.IntSort() for _ in keys], z3.BoolSort())
+            return dom(to_ref(m), *keys)
         if nm == 'isinst':
             return self.isinstance_name(self.ev(node.args[0], st, fr), node.args[1].value, st)
         if nm == 'cint':
